@@ -18,6 +18,18 @@ use crate::{
 use futures::{prelude::*, ready, stream::Fuse, task::*};
 use in_flight_requests::InFlightRequests;
 use pin_project::pin_project;
+#[cfg(tarpc_verif)]
+use crate::verif_hooks::AtomicUsize;
+#[cfg(tarpc_verif)]
+use std::{
+    any::Any,
+    convert::TryFrom,
+    fmt,
+    pin::Pin,
+    sync::{atomic::Ordering, Arc},
+    time::SystemTime,
+};
+#[cfg(not(tarpc_verif))]
 use std::{
     any::Any,
     convert::TryFrom,
